@@ -247,3 +247,158 @@ def pointwise_rel(key, msg, pairs, rel):
                 out.append(viol(key, "%s at step %d: %s -> %s %s (%s)" % (d_sexpr(c1.desc), t + 1, a, b, msg, prm), [c1, c2], step=t + 1, params=str(prm)))
                 break
     return out
+
+# ---------------------------------------------------------------------------------- C07
+def ulps_tol(bound, f64):
+    if not f64:
+        return F(0)
+    b = abs(float(bound)) if bound is not None else 1.0
+    return F(max(b, 1e-300)) * F(4, 2 ** 52)
+
+def c07(cases, f64=False):
+    from .props import range_of
+    out = []
+    for c in cases:
+        name = c.desc[0]
+        n = c.desc[1] if len(c.desc) > 1 and isinstance(c.desc[1], int) else None
+        xs = c.inputs()
+        got = c.outs()
+        if f64:
+            got = [None if g is None else g if isinstance(g, str) else F(f64_of_bits(g)) if math.isfinite(f64_of_bits(g)) else "E" for g in got]
+        def bad(msg, t, key=None):
+            k = key or ("c07-range-" + name.lower() + ("-f64" if f64 else ""))
+            out.append(viol(k, "%s at step %d: %s%s" % (d_sexpr(c.desc), t + 1, msg, " [f64]" if f64 else ""), [c], step=t + 1))
+        prev = None
+        for t, g in enumerate(got):
+            if g is None:
+                continue
+            if isinstance(g, str):
+                bad("error / non-finite value", t, "c07-error-" + name.lower() + ("-f64" if f64 else ""))
+                break
+            r = range_of(c.desc)
+            if r is not None:
+                lo, hi = r
+                if (lo is not None and g < lo - ulps_tol(lo, f64)) or (hi is not None and g > hi + ulps_tol(hi, f64)):
+                    bad("value %s (~%.12g) outside [%s, %s]" % (g if not f64 else float(g), float(g), lo, hi), t)
+                    break
+            if name == "Drawdown":
+                if g >= 1 or (prev is not None and g < prev):
+                    bad("drawdown %s not in [0,1) / decreasing" % g, t)
+                    break
+                prev = g
+            if name == "Vsct" and not f64:
+                # |Vsct| <= (N-1)/sqrt(N): compare squares; the surrogate sqrt floors, allow 1e-6
+                if g * g * n > F(n - 1) ** 2 * (1 + F(1, 10 ** 6)):
+                    bad("|Vsct| = %.9g exceeds (N-1)/sqrt(N)" % abs(float(g)), t)
+                    break
+            if name == "Vsct" and f64 and abs(float(g)) > (n - 1) / math.sqrt(n) * (1 + 1e-12):
+                bad("|Vsct| = %.17g exceeds (N-1)/sqrt(N)" % abs(float(g)), t)
+                break
+            if name == "Cog":
+                k = min(n, t + 1)
+                if abs(g) > F(n - 1, 2) + ulps_tol(F(n - 1, 2), f64):
+                    bad("|CoG| = %s exceeds (N-1)/2" % g, t)
+                    break
+            if name in ("Min", "Max", "Sma", "Alma") and c.desc[-1] == E:
+                xx = [F(x) for x in xs] if not f64 else [F(float(x.numerator) / float(x.denominator)) for x in xs]
+                w = xx[max(0, t + 1 - n): t + 1]
+                tol = ulps_tol(max(abs(x) for x in w), f64) * (n if name in ("Sma", "Alma") else 0)
+                if not (min(w) - tol <= g <= max(w) + tol):
+                    bad("%s outside [min, max] of its window" % g, t)
+                    break
+                if name == "Min" and g != min(w) or name == "Max" and g != max(w):
+                    bad("%s is not the extremum of the window" % g, t)
+                    break
+            if name in ("Gte", "Lte"):
+                clip = c.desc[1]
+                cl = clip if not f64 else F(float(clip.numerator) / float(clip.denominator))
+                if (name == "Gte" and g < cl) or (name == "Lte" and g > cl):
+                    bad("%s violates the clip %s" % (g, clip), t)
+                    break
+    return out
+
+# ---------------------------------------------------------------------------------- C08
+def c08(cases, warm, f64=False):
+    out = []
+    for c in cases:
+        name = c.desc[0]
+        obs = [(None if b.kind == "N" else "v" if b.kind == "S" else b.kind) for b in c.obs]
+        if c.ctor_ok is False or "E" in obs:
+            out.append(viol("c08-error-" + name.lower() + ("-f64" if f64 else ""), "%s: panic or non-finite value on in-domain input%s" % (d_sexpr(c.desc), " [f64]" if f64 else ""), [c] if len(c.ops) < 200 else [], desc=d_sexpr(c.desc)))
+            continue
+        if c.meta.get("regime") == "starved":
+            if len(set(b.raw.split("@")[0] for b in c.obs)) != 1:
+                out.append(viol("c08-starved", "%s changed its answer although its inner view never delivered" % d_sexpr(c.desc), [c]))
+            continue
+        seen = False
+        for t, o in enumerate(obs):
+            if o == "v":
+                seen = True
+            elif seen and o is None:
+                out.append(viol("c08-relapse-" + name.lower(), "%s: readiness reverted to None at step %d" % (d_sexpr(c.desc), t + 1), [c] if len(c.ops) < 200 else [], step=t + 1))
+                break
+        if f64 or c.meta.get("chain") or c.desc[-1] != E:
+            continue
+        n = c.desc[1] if len(c.desc) > 1 and isinstance(c.desc[1], int) else None
+        first = next((t + 1 for t, o in enumerate(obs) if o == "v"), None)
+        L = len(obs)
+        exp = None
+        if name in warm:
+            exp = warm[name](n)
+        elif name in ("Gte", "Lte", "Tanh", "Laguerre", "Echo"):
+            exp = 1
+        elif name == "LnReturn":
+            exp = 2
+        elif name == "Roofing":
+            exp = c.desc[1] + c.desc[2] + 1
+        if exp is not None and exp <= L and first != exp:
+            out.append(viol("c08-warmup-" + name.lower(), "%s first reports at value %s, documented: %d" % (d_sexpr(c.desc), first, exp), [c]))
+        if name in ("Welford", "Vst", "Vsct") and first is not None and not (max(1, n - 1) <= first <= max(1, n)):
+            out.append(viol("c08-warmup-" + name.lower(), "%s first reports at value %s, documented: between N-1 and N" % (d_sexpr(c.desc), first), [c]))
+    return out
+
+# ---------------------------------------------------------------------------------- C10
+def c10(triples, consts):
+    out = []
+    for (cx, cy, cz, (a, b)) in triples:
+        ox, oy, oz = cx.outs(), cy.outs(), cz.outs()
+        for t in range(len(oz)):
+            if any(isinstance(o[t], str) for o in (ox, oy, oz)):
+                out.append(viol("c10-error", "error in %s" % d_sexpr(cx.desc), [cx, cy, cz]))
+                break
+            nn = [o[t] is None for o in (ox, oy, oz)]
+            if len(set(nn)) != 1:
+                out.append(viol("c10-superposition-" + cx.desc[0].lower(), "%s: readiness pattern depends on the data at step %d" % (d_sexpr(cx.desc), t + 1), [cx, cy, cz], step=t + 1))
+                break
+            if nn[0]:
+                continue
+            if oz[t] != a * ox[t] + b * oy[t]:
+                out.append(viol("c10-superposition-" + cx.desc[0].lower(), "%s at step %d: view(%s*x+%s*y) = %s but %s*view(x)+%s*view(y) = %s"
+                                % (d_sexpr(cx.desc), t + 1, a, b, oz[t], a, b, a * ox[t] + b * oy[t]), [cx, cy, cz], step=t + 1, a=str(a), b=str(b)))
+                break
+    for c in consts:
+        name, n = c.desc[0], c.desc[1]
+        v = c.inputs()[0]
+        for t, g in enumerate(c.outs()):
+            if g is None:
+                continue
+            want = F(0) if name == "Cyber" else v
+            if g != want:
+                key = "D11-cyber-small-n-dc" if (name == "Cyber" and isinstance(n, int) and n in (4, 5)) else "c10-dc-" + name.lower()
+                out.append(viol(key, "%s on the constant stream %s reports %s at step %d (expected %s)" % (d_sexpr(c.desc), v, g, t + 1, want), [c], step=t + 1))
+                break
+    return out
+
+def c10_dc(fcases):
+    out = []
+    for c in fcases:
+        name = c.desc[0]
+        last = c.obs[-1]
+        if last.kind != "S":
+            out.append(viol("c10-dc-" + name.lower(), "%s: no finite output after 3000 constant inputs" % d_sexpr(c.desc), [], desc=d_sexpr(c.desc)))
+            continue
+        y = f64_of_bits(last.val)
+        want = 5.0 if name == "Ss" else 0.0
+        if not (abs(y - want) <= 1e-6):
+            out.append(viol("c10-dc-" + name.lower(), "%s on the constant stream 5 reports %r after 3000 steps (limit %r)" % (d_sexpr(c.desc), y, want), [], desc=d_sexpr(c.desc)))
+    return out
